@@ -45,6 +45,22 @@ use std::panic::{catch_unwind, AssertUnwindSafe};
 // ------------------------------------------------------------------------------------------------
 // small helpers
 
+/// C03_DEBUG=1: to stderr; C03_DEBUG=/path: appended to that file (cases run in child processes without stderr)
+macro_rules! t_debug {
+    ($($a:tt)*) => {{
+        let line = format!($($a)*);
+        match std::env::var("C03_DEBUG") {
+            Ok(p) if p.contains('/') => {
+                use std::io::Write;
+                if let Ok(mut f) = std::fs::OpenOptions::new().create(true).append(true).open(&p) {
+                    let _ = writeln!(f, "{}", line);
+                }
+            }
+            _ => eprintln!("{}", line),
+        }
+    }};
+}
+
 fn be16(v: &mut Vec<u8>, x: u16) {
     v.extend_from_slice(&x.to_be_bytes());
 }
@@ -131,6 +147,9 @@ struct GsubSpec {
     fv: Option<Vec<(Conds, Substs)>>,
     nlookups: u16,
     naxes: u16,
+    /// `NLOOKUPSxSTRIDE`: every lookup is an Extension lookup (type 7, Offset32) whose SingleSubst subtable (and
+    /// its Coverage) lies STRIDE bytes after the previous one: a layout table larger than 64 KiB
+    ext: Option<u32>,
 }
 
 fn plist<T: std::str::FromStr>(s: &str) -> Vec<T>
@@ -210,7 +229,13 @@ fn parse_spec(s: &str) -> GsubSpec {
         }
         g.fv = Some(recs);
     }
-    g.nlookups = p[3].parse().unwrap();
+    match p[3].split_once('x') {
+        Some((n, st)) => {
+            g.nlookups = n.parse().unwrap();
+            g.ext = Some(st.parse::<u32>().unwrap().clamp(12, 1 << 20));
+        }
+        None => g.nlookups = p[3].parse().unwrap(),
+    }
     g.naxes = p[4].parse().unwrap();
     g
 }
@@ -266,7 +291,11 @@ fn show_spec(g: &GsubSpec) -> String {
             .collect::<Vec<_>>()
             .join(","),
     };
-    format!("{}!{}!{}!{}!{}", f, s, v, g.nlookups, g.naxes)
+    let nl = match g.ext {
+        Some(st) => format!("{}x{}", g.nlookups, st),
+        None => g.nlookups.to_string(),
+    };
+    format!("{}!{}!{}!{}!{}", f, s, v, nl, g.naxes)
 }
 
 fn feature_table(lookups: &[u16]) -> Vec<u8> {
@@ -343,20 +372,45 @@ fn gsub_bytes(g: &GsubSpec) -> Vec<u8> {
     // lookup list
     let mut ll = vec![];
     be16(&mut ll, g.nlookups);
-    for i in 0..g.nlookups as usize {
-        be16(&mut ll, (2 + 2 * g.nlookups as usize + 20 * i) as u16);
-    }
-    for i in 0..g.nlookups {
-        be16(&mut ll, 1); // type: single
-        be16(&mut ll, 0); // flag
-        be16(&mut ll, 1); // subtable count
-        be16(&mut ll, 8); // subtable offset
-        be16(&mut ll, 1); // format 1
-        be16(&mut ll, 6); // coverage offset
-        be16(&mut ll, 40); // delta
-        be16(&mut ll, 1); // coverage format 1
-        be16(&mut ll, 1); // count
-        be16(&mut ll, i + 1); // glyph
+    let single = |ll: &mut Vec<u8>, i: u16| {
+        be16(ll, 1); // format 1
+        be16(ll, 6); // coverage offset
+        be16(ll, 40); // delta
+        be16(ll, 1); // coverage format 1
+        be16(ll, 1); // count
+        be16(ll, i + 1); // glyph
+    };
+    if let Some(stride) = g.ext {
+        let n = g.nlookups as usize;
+        for i in 0..n {
+            be16(&mut ll, (2 + 2 * n + 16 * i) as u16);
+        }
+        let p0 = 2 + 2 * n + 16 * n + 6;
+        for i in 0..n {
+            be16(&mut ll, 7); // type: extension
+            be16(&mut ll, 0); // flag
+            be16(&mut ll, 1); // subtable count
+            be16(&mut ll, 8); // subtable offset
+            be16(&mut ll, 1); // format 1
+            be16(&mut ll, 1); // extension lookup type: single
+            let ext_pos = 2 + 2 * n + 16 * i + 8;
+            be32(&mut ll, (p0 + i * stride as usize - ext_pos) as u32);
+        }
+        for i in 0..n {
+            ll.resize(p0 + i * stride as usize, 0);
+            single(&mut ll, i as u16);
+        }
+    } else {
+        for i in 0..g.nlookups as usize {
+            be16(&mut ll, (2 + 2 * g.nlookups as usize + 20 * i) as u16);
+        }
+        for i in 0..g.nlookups {
+            be16(&mut ll, 1); // type: single
+            be16(&mut ll, 0); // flag
+            be16(&mut ll, 1); // subtable count
+            be16(&mut ll, 8); // subtable offset
+            single(&mut ll, i);
+        }
     }
     // feature variations
     let mut fv = vec![];
@@ -900,7 +954,7 @@ fn f_history<T: FontTableProvider>(mk: &dyn Fn() -> Option<Font<T>>, hist: &str,
         // a panicking call is a result like any other (RefCell guards are released while unwinding)
         let r = f_op(&mut font, op);
         if debug {
-            eprintln!("history {} -> {}", op, r);
+            t_debug!("history {} -> {}", op, r);
         }
         if op.starts_with("ef:") {
             cfg = vec![op];
@@ -915,7 +969,7 @@ fn f_history<T: FontTableProvider>(mk: &dyn Fn() -> Option<Font<T>>, hist: &str,
     // a second probe on the same object must also agree (a cache filled by the probe itself)
     let c = f_op(&mut font, probe);
     if debug {
-        eprintln!("probe {} -> after history: {}\n fresh: {}\n again: {}", probe, a, b, c);
+        t_debug!("probe {} -> after history: {}\n fresh: {}\n again: {}", probe, a, b, c);
     }
     if c != a {
         return format!("{} {}", dig(&c), dig(&b));
@@ -939,6 +993,321 @@ fn run_f(fontname: &str, hist: &str, probe: &str) -> String {
             hist,
             probe,
         )
+    }
+}
+
+// ------------------------------------------------------------------------------------------------
+// T: object histories on ONE lazily parsed, memoising GlyfTable (visit / subset / write / get_parsed_glyph)
+//
+//  T|MODE!g,g,g,...|op;op;...|probe
+//     MODE = p (records stay `Present` until first use) | r (every record that parses is parsed up front)
+//     g    = e (empty) | sN (simple glyph, N points, the encoding the writer itself produces)
+//          | qN (simple glyph in a compact encoding: short vectors, REPEAT, Y_IS_SAME)
+//          | cI.J.K (composite of glyphs I, J, K; indices may be >= numGlyphs or refer upwards)
+//          | kI.J (composite with WE_HAVE_A_SCALE) | tN (simple glyph cut off after endPtsOfContours)
+//          | uI (composite cut off after its first component, MORE_COMPONENTS set)
+//     op   = v:G (OutlineBuilder::visit, recording sink) | s:I.J.K (GlyfTable::subset -> write_dep Long)
+//          | w:0 / w:1 (write_dep of a copy of the records, Short / Long) | g:G (get_parsed_glyph)
+//          | n:G (records()[G]: number_of_contours, number_of_points, is_composite)
+//     output D1 D2 : digest of (every op of the history and the probe, the probe once more) on the one table /
+//                    of the same ops each on a freshly read table
+use allsorts::binary::write::{WriteBinaryDep, WriteBuffer};
+use allsorts::outline::{OutlineBuilder, OutlineSink};
+use allsorts::pathfinder_geometry::line_segment::LineSegment2F;
+use allsorts::pathfinder_geometry::vector::Vector2F;
+use allsorts::tables::glyf::{GlyfTable, Glyph};
+use allsorts::tables::loca::LocaTable;
+use allsorts::tables::IndexToLocFormat;
+
+#[derive(Default)]
+struct RecSink(String);
+impl OutlineSink for RecSink {
+    fn move_to(&mut self, to: Vector2F) {
+        self.0.push_str(&format!("M{},{} ", to.x(), to.y()));
+    }
+    fn line_to(&mut self, to: Vector2F) {
+        self.0.push_str(&format!("L{},{} ", to.x(), to.y()));
+    }
+    fn quadratic_curve_to(&mut self, c: Vector2F, to: Vector2F) {
+        self.0.push_str(&format!("Q{},{},{},{} ", c.x(), c.y(), to.x(), to.y()));
+    }
+    fn cubic_curve_to(&mut self, c: LineSegment2F, to: Vector2F) {
+        self.0.push_str(&format!("C{},{},{},{},{},{} ", c.from_x(), c.from_y(), c.to_x(), c.to_y(), to.x(), to.y()));
+    }
+    fn close(&mut self) {
+        self.0.push_str("Z ");
+    }
+}
+
+fn bei16(v: &mut Vec<u8>, x: i16) {
+    v.extend_from_slice(&x.to_be_bytes());
+}
+
+fn t_glyph_bytes(idx: usize, g: &str) -> Vec<u8> {
+    let mut v = vec![];
+    let (k, rest) = g.split_at(1);
+    let header = |v: &mut Vec<u8>, nc: i16| {
+        bei16(v, nc);
+        for b in [0i16, 0, 100, 100] {
+            bei16(v, b);
+        }
+    };
+    match k {
+        "s" | "q" | "t" => {
+            let n: usize = rest.parse::<usize>().unwrap_or(1).clamp(1, 40);
+            header(&mut v, 1);
+            be16(&mut v, (n - 1) as u16);
+            if k == "t" {
+                return v;
+            }
+            be16(&mut v, 0);
+            let xs: Vec<i16> = (0..n).map(|j| ((idx * 7 + j * 13) % 100) as i16).collect();
+            let ys: Vec<i16> = (0..n).map(|j| ((j * 29 + idx * 3) % 100) as i16).collect();
+            if k == "s" {
+                for j in 0..n {
+                    v.push(if (j + idx) % 3 != 1 { 1 } else { 0 });
+                }
+                let mut prev = 0i16;
+                for x in &xs {
+                    bei16(&mut v, x - prev);
+                    prev = *x;
+                }
+                prev = 0;
+                for y in &ys {
+                    bei16(&mut v, y - prev);
+                    prev = *y;
+                }
+            } else {
+                // ON_CURVE | X_SHORT | X_POSITIVE | Y_IS_SAME, repeated; x deltas as single bytes, no y data
+                let f = 0x01 | 0x02 | 0x10 | 0x20;
+                if n > 1 {
+                    v.push(f | 0x08);
+                    v.push((n - 1) as u8);
+                } else {
+                    v.push(f);
+                }
+                for j in 0..n {
+                    v.push(((idx + j * 5) % 50) as u8);
+                }
+            }
+        }
+        "c" | "k" | "u" => {
+            let comps: Vec<u16> = plist(rest);
+            header(&mut v, -1);
+            let m = comps.len();
+            for (j, c) in comps.iter().enumerate() {
+                let more = j + 1 < m || k == "u";
+                let mut flags: u16 = 0x0001 | 0x0002;
+                if more {
+                    flags |= 0x0020;
+                }
+                if k == "k" {
+                    flags |= 0x0008;
+                }
+                be16(&mut v, flags);
+                be16(&mut v, *c);
+                bei16(&mut v, 10 * (j as i16 + 1));
+                bei16(&mut v, (idx % 7) as i16);
+                if k == "k" {
+                    be16(&mut v, 0x2000);
+                }
+                if k == "u" {
+                    break;
+                }
+            }
+        }
+        _ => {}
+    }
+    v
+}
+
+fn t_tables(spec: &str) -> (bool, Vec<u8>, Vec<u8>, usize) {
+    let (mode, glyphs) = spec.split_once('!').unwrap_or(("p", spec));
+    let gs: Vec<&str> = glyphs.split(',').filter(|s| !s.is_empty()).collect();
+    let mut glyf = vec![];
+    let mut loca = vec![];
+    for (i, g) in gs.iter().enumerate() {
+        be32(&mut loca, glyf.len() as u32);
+        glyf.extend(t_glyph_bytes(i, g));
+    }
+    be32(&mut loca, glyf.len() as u32);
+    (mode == "r", glyf, loca, gs.len())
+}
+
+fn t_load<'a>(pre: bool, glyf: &'a [u8], loca: &'a LocaTable<'a>) -> Result<GlyfTable<'a>, ParseError> {
+    let mut t = ReadScope::new(glyf).read_dep::<GlyfTable<'_>>(loca)?;
+    if pre {
+        for r in t.records_mut() {
+            let _ = r.parse();
+        }
+    }
+    Ok(t)
+}
+
+/// the glyphs of a written table, re-read one by one: what the bytes mean (a record written from its raw bytes
+/// and the same record written from its parsed form may legitimately differ in encoding)
+fn t_written(bytes: &[u8], offsets: &[u32], exact: bool) -> String {
+    let mut s = String::new();
+    for w in offsets.windows(2) {
+        let (a, b) = (w[0] as usize, w[1] as usize);
+        if a == b {
+            s.push_str("E;");
+        } else if a > b || b > bytes.len() {
+            s.push_str("badloca;");
+        } else {
+            match ReadScope::new(&bytes[a..b]).read::<Glyph<'_>>() {
+                // of the flags of a point only ON_CURVE_POINT is meaning; the others describe the encoding
+                Ok(Glyph::Simple(g)) => s.push_str(&format!(
+                    "S{:?}{:?}{:?}{:?}{:?};",
+                    g.bounding_box,
+                    g.end_pts_of_contours,
+                    g.instructions,
+                    g.coordinates.iter().map(|(f, p)| (f.is_on_curve(), p.0, p.1)).collect::<Vec<_>>(),
+                    g.phantom_points
+                )),
+                Ok(g) => s.push_str(&format!("{:?};", g)),
+                Err(e) => s.push_str(&format!("err-{}:{:016x};", perr(&e), fnv(&bytes[a..b]))),
+            }
+        }
+    }
+    if exact {
+        s.push_str(&format!("bytes:{}:{:016x}", bytes.len(), fnv(bytes)));
+    }
+    format!("ok:{}:{}", offsets.len(), dig(&s))
+}
+
+fn t_op(t: &mut GlyfTable<'_>, op: &str, exact: bool) -> String {
+    let r = catch_unwind(AssertUnwindSafe(|| {
+        let (k, a) = op.split_once(':').unwrap_or((op, ""));
+        match k {
+            "v" => {
+                let mut sink = RecSink::default();
+                match t.visit(a.parse().unwrap_or(0), &mut sink) {
+                    Ok(()) => format!("ok:{}", sink.0),
+                    Err(e) => format!("err:{}", perr(&e)),
+                }
+            }
+            "s" => {
+                let ids: Vec<u16> = plist(a);
+                match t.subset(&ids) {
+                    Ok(sub) => {
+                        let mut buf = WriteBuffer::new();
+                        match GlyfTable::write_dep(&mut buf, GlyfTable::from(sub), IndexToLocFormat::Long) {
+                            Ok(loca) => t_written(buf.bytes(), &loca.offsets, exact),
+                            Err(e) => format!("werr:{:?}", e),
+                        }
+                    }
+                    Err(e) => format!("err:{}", perr(&e)),
+                }
+            }
+            "w" => {
+                let fmt = if a == "0" { IndexToLocFormat::Short } else { IndexToLocFormat::Long };
+                match GlyfTable::new(t.records().to_vec()) {
+                    Ok(copy) => {
+                        let mut buf = WriteBuffer::new();
+                        match GlyfTable::write_dep(&mut buf, copy, fmt) {
+                            Ok(loca) => t_written(buf.bytes(), &loca.offsets, exact),
+                            Err(e) => format!("werr:{:?}", e),
+                        }
+                    }
+                    Err(e) => format!("err:{}", perr(&e)),
+                }
+            }
+            "g" => match t.get_parsed_glyph(a.parse().unwrap_or(0)) {
+                Ok(g) => format!("ok:{:?}", g),
+                Err(e) => format!("err:{}", perr(&e)),
+            },
+            "n" => match t.records().get(a.parse::<usize>().unwrap_or(0)) {
+                Some(r) => format!(
+                    "ok:{}:{}:{}",
+                    r.number_of_contours(),
+                    match r.number_of_points() {
+                        Ok(n) => n.to_string(),
+                        Err(e) => format!("err-{}", perr(&e)),
+                    },
+                    r.is_composite()
+                ),
+                None => "none".to_string(),
+            },
+            _ => "badop".to_string(),
+        }
+    }));
+    r.unwrap_or_else(|e| panic_kind(&*e).to_string())
+}
+
+fn run_t(spec: &str, hist: &str, probe: &str) -> String {
+    let (pre, glyf, loca_bytes, n) = t_tables(spec);
+    // byte-exact comparison of written tables only when every glyph is in the writer's own encoding
+    let exact = !spec.contains('q');
+    let loca = match ReadScope::new(&loca_bytes).read_dep::<LocaTable<'_>>((n, IndexToLocFormat::Long)) {
+        Ok(l) => l,
+        Err(_) => return "nofont nofont -".to_string(),
+    };
+    let mut used = match t_load(pre, &glyf, &loca) {
+        Ok(t) => t,
+        Err(_) => return "nofont nofont -".to_string(),
+    };
+    let debug = std::env::var("C03_DEBUG").is_ok();
+    let mut ops: Vec<&str> = hist.split(';').filter(|s| !s.is_empty()).collect();
+    ops.push(probe);
+    let (mut a, mut b) = (String::new(), String::new());
+    let mut status: Vec<String> = vec![];
+    for op in &ops {
+        let ra = t_op(&mut used, op, exact);
+        let rb = match t_load(pre, &glyf, &loca) {
+            Ok(mut fresh) => t_op(&mut fresh, op, exact),
+            Err(_) => "noload".to_string(),
+        };
+        if debug {
+            t_debug!("{} -> one table: {}\n      fresh table: {}", op, ra, rb);
+        }
+        status.push(t_status(op, &rb));
+        a.push_str(&ra);
+        a.push('\n');
+        b.push_str(&rb);
+        b.push('\n');
+    }
+    // the probe once more on the same object (a state change made by the probe itself)
+    let rc = t_op(&mut used, probe, exact);
+    let rb = t_op(&mut t_load(pre, &glyf, &loca).unwrap(), probe, exact);
+    if debug {
+        t_debug!("{} (again) -> one table: {}\n      fresh table: {}", probe, rc, rb);
+    }
+    a.push_str(&rc);
+    b.push_str(&rb);
+    format!("{} {} {}", dig(&a), dig(&b), status.join(","))
+}
+
+/// what the extracted model predicts of a call on a freshly read table: visit -> ok:<simple glyphs drawn> (every
+/// synthesised simple glyph has one contour, i.e. one move_to) | err:E; get_parsed_glyph -> ok:E | ok:S |
+/// ok:C<component indices> | err:E; other calls are not modelled (`-`)
+fn t_status(op: &str, res: &str) -> String {
+    if res == "panic" || res == "oob" {
+        return res.to_string();
+    }
+    if let Some(e) = res.strip_prefix("err:") {
+        return if op.starts_with("v:") || op.starts_with("g:") { format!("err:{}", e) } else { "-".to_string() };
+    }
+    if op.starts_with("v:") {
+        format!("ok:{}", res.matches('M').count())
+    } else if op.starts_with("g:") {
+        let r = res.strip_prefix("ok:").unwrap_or(res);
+        if r.starts_with("Empty") {
+            "ok:E".to_string()
+        } else if r.starts_with("Simple") {
+            "ok:S".to_string()
+        } else {
+            let mut ids = vec![];
+            let mut rest = r;
+            while let Some(i) = rest.find("glyph_index: ") {
+                rest = &rest[i + 13..];
+                let end = rest.find(|c: char| !c.is_ascii_digit()).unwrap_or(rest.len());
+                ids.push(rest[..end].to_string());
+            }
+            format!("ok:C{}", ids.join("."))
+        }
+    } else {
+        "-".to_string()
     }
 }
 
@@ -1048,6 +1417,7 @@ fn run_inner(input: &str) -> String {
         "L" if p.len() == 3 => run_l(p[1], p[2]),
         "G" if p.len() == 3 => run_g(p[1], p[2]),
         "F" if p.len() == 4 => run_f(p[1], p[2], p[3]),
+        "T" if p.len() == 4 => run_t(p[1], p[2], p[3]),
         "P" | "P1" | "P2" if p.len() == 4 => run_p(p[0], p[1], p[2], p[3]),
         _ => "badinput".to_string(),
     }
@@ -1162,7 +1532,7 @@ fn gen_spec(rng: &mut Rng) -> GsubSpec {
         }
         Some(recs)
     };
-    GsubSpec { features, scripts, fv, nlookups, naxes }
+    GsubSpec { features, scripts, fv, nlookups, naxes, ext: None }
 }
 
 /// a GSUB shaped like real variable fonts: `rvrn` (and one more feature) in every LangSys, FeatureVariations
@@ -1197,7 +1567,7 @@ fn gen_spec_rvrn(rng: &mut Rng) -> GsubSpec {
         }
         recs.push((Conds::Set(vec![(rng.below(naxes as u64) as u16, lo, hi)]), Substs::Table(l)));
     }
-    GsubSpec { features, scripts, fv: Some(recs), nlookups, naxes }
+    GsubSpec { features, scripts, fv: Some(recs), nlookups, naxes, ext: None }
 }
 
 fn gen_tuple_str(rng: &mut Rng, naxes: u16) -> String {
@@ -1436,13 +1806,46 @@ fn gen_f_long(rng: &mut Rng) -> String {
     format!("F|{}|{}|{}", fx.path, hist.join(";"), probe)
 }
 
+/// a layout table larger than 64 KiB: every lookup is an Extension lookup, the subtables (and their Coverage
+/// tables) lie STRIDE bytes apart - exactly, nearly or not at all a multiple of 2^16 / 2^8; each feature selects
+/// one lookup, the history shapes with some features, the probe with another one (lookups are parsed lazily,
+/// their Coverage objects are memoised by position)
+fn gen_f_ext(rng: &mut Rng) -> String {
+    const FT: &[&str] = &["liga", "ccmp", "calt", "locl", "smcp", "frac", "clig"];
+    let n = 2 + rng.below(5) as usize;
+    let features: Vec<(u32, Vec<u16>)> = (0..n).map(|i| (t4(FT[i]), vec![i as u16])).collect();
+    let all: Vec<u16> = (0..n as u16).collect();
+    let latn = Script { tag: t4("latn"), default: Some(all.clone()), langs: vec![] };
+    let stride = *rng.pick(&[65536u32, 65536, 65536, 131072, 196608, 65534, 65538, 32768, 256, 4096, 16, 12]);
+    let g = GsubSpec { features, scripts: vec![latn], fv: None, nlookups: n as u16, naxes: 0, ext: Some(stride) };
+    let text = "61.62.63.64.65.66.67.68";
+    let shape = |rng: &mut Rng| {
+        let mut m = mask_of(FT[rng.below(n as u64) as usize]);
+        if rng.chance(1, 4) {
+            m |= mask_of(FT[rng.below(n as u64) as usize]);
+        }
+        format!("sh:{}:-:m{}:-:0:n:{}", t4("latn"), m, text)
+    };
+    let h = 1 + rng.below(3);
+    let hist: Vec<String> = (0..h).map(|_| shape(rng)).collect();
+    format!("F|syn:{}|{}|{}", show_spec(&g), hist.join(";"), shape(rng))
+}
+
 fn gen_f(rng: &mut Rng) -> String {
     if rng.chance(1, 25) {
         return gen_f_long(rng);
     }
+    if rng.chance(1, 16) {
+        return gen_f_ext(rng);
+    }
     let (name, mut scripts, mut langs, cps, axes, nglyphs): (String, Vec<String>, Vec<String>, Vec<u32>, u16, u16) =
         if rng.chance(1, 4) {
-            let g = if rng.chance(1, 2) { gen_spec_rvrn(rng) } else { gen_spec(rng) };
+            let mut g = if rng.chance(1, 2) { gen_spec_rvrn(rng) } else { gen_spec(rng) };
+            if rng.chance(1, 3) {
+                // a layout table larger than 64 KiB: Extension lookups whose subtables (and Coverage tables) lie
+                // exactly / nearly a multiple of 2^16, 2^8 bytes apart
+                g.ext = Some(*rng.pick(&[65536u32, 65536, 131072, 65534, 65538, 32768, 256, 12]));
+            }
             let sc: Vec<String> = SCRIPTS_L.iter().map(|s| t4(s).to_string()).collect();
             let la: Vec<String> = LANGS_L.iter().map(|s| t4(s).to_string()).collect();
             (format!("syn:{}", show_spec(&g)), sc, la, (0x61..0x6b).collect(), g.naxes.max(1), NGLYPHS)
@@ -1530,11 +1933,102 @@ fn gen_p(rng: &mut Rng) -> String {
     }
 }
 
+/// a glyf table with composite glyphs on purpose: chains whose nesting straddles the recursion limit of the
+/// outline code (6), DAGs with shared components, component indices at and past numGlyphs, upward / self
+/// references, glyphs whose data does not parse; histories with failing queries followed by probes that succeed
+/// on a fresh table
+fn gen_t(rng: &mut Rng) -> String {
+    let mut gs: Vec<String> = vec!["e".to_string()];
+    let simple = |rng: &mut Rng| format!("{}{}", if rng.chance(1, 4) { "q" } else { "s" }, 1 + rng.below(6));
+    let shape = rng.below(4);
+    if shape <= 1 {
+        // chain: glyph k is made of glyph k-1 (and sometimes of a second, shallow glyph)
+        gs.push(simple(rng));
+        if rng.chance(1, 2) {
+            gs.push(simple(rng));
+        }
+        let base = gs.len();
+        let len = 4 + rng.below(7) as usize; // deepest glyph nests 4..10 levels: limit 6 is in the middle
+        for k in 0..len {
+            let prev = base + k - 1;
+            let mut c = format!("{}{}", if rng.chance(1, 8) { "k" } else { "c" }, prev);
+            if rng.chance(1, 4) {
+                c.push_str(&format!(".{}", 1 + rng.below(base as u64 - 1)));
+            }
+            gs.push(c);
+        }
+        if shape == 1 {
+            // the bottom of the chain is not drawable
+            gs[base - 1] = match rng.below(3) {
+                0 => format!("t{}", 1 + rng.below(4)),
+                1 => "u1".to_string(),
+                _ => format!("c{}", gs.len() + rng.below(3) as usize),
+            };
+        }
+    } else {
+        let n = 3 + rng.below(10) as usize;
+        for i in 1..n {
+            let g = match rng.below(12) {
+                0..=3 => simple(rng),
+                4 => "e".to_string(),
+                5 => format!("t{}", 1 + rng.below(4)),
+                6 if i > 1 => format!("u{}", rng.below(i as u64)),
+                _ if i > 1 => {
+                    let m = 1 + rng.below(3);
+                    let comps: Vec<u16> = (0..m)
+                        .map(|_| match rng.below(16) {
+                            0 => *rng.pick(&[n as u16, n as u16 + 1, 65535]),
+                            1 => i as u16,                                    // itself
+                            2 => (i as u64 + rng.below((n - i) as u64)) as u16, // upwards
+                            _ => rng.below(i as u64) as u16,
+                        })
+                        .collect();
+                    format!("{}{}", if rng.chance(1, 8) { "k" } else { "c" }, slist(&comps))
+                }
+                _ => simple(rng),
+            };
+            gs.push(g);
+        }
+    }
+    let n = gs.len() as u64;
+    let gid = |rng: &mut Rng| -> u64 {
+        match rng.below(10) {
+            0 => n + rng.below(2),
+            1..=4 => n - 1 - rng.below(n.min(3)),
+            _ => rng.below(n),
+        }
+    };
+    let op = |rng: &mut Rng, probe: bool| -> String {
+        match rng.below(if probe { 8 } else { 10 }) {
+            0..=2 => format!("v:{}", gid(rng)),
+            3 | 4 => {
+                let mut ids: Vec<u64> = vec![0];
+                for _ in 0..1 + rng.below(3) {
+                    let g = gid(rng).min(n - 1).max(1);
+                    if !ids.contains(&g) {
+                        ids.push(g);
+                    }
+                }
+                format!("s:{}", slist(&ids))
+            }
+            5 => format!("w:{}", rng.below(2)),
+            6 => format!("g:{}", gid(rng)),
+            7 => format!("n:{}", gid(rng)),
+            _ => format!("v:{}", gid(rng)),
+        }
+    };
+    let h = 1 + rng.below(5);
+    let hist: Vec<String> = (0..h).map(|_| op(rng, false)).collect();
+    let probe = if rng.chance(1, 4) { hist[0].clone() } else { op(rng, true) };
+    format!("T|{}!{}|{}|{}", if rng.chance(1, 4) { "r" } else { "p" }, gs.join(","), hist.join(";"), probe)
+}
+
 fn gen(rng: &mut Rng) -> String {
     match rng.below(20) {
-        0..=6 => gen_l(rng),
-        7..=10 => gen_g(rng),
-        11..=18 => gen_f(rng),
+        0..=5 => gen_l(rng),
+        6..=9 => gen_g(rng),
+        10..=16 => gen_f(rng),
+        17..=18 => gen_t(rng),
         _ => gen_p(rng),
     }
 }
